@@ -44,6 +44,9 @@ type MTarget struct {
 	NS    null.String       `plenc:"21"`
 	U8s   []uint8           `plenc:"22"`
 	Bss   [][]byte          `plenc:"23"`
+	PSl   *[]int            `plenc:"24"`
+	PIs   []*int            `plenc:"25"`
+	Bo2   []bool            `plenc:"26"`
 }
 
 func init() {
@@ -89,7 +92,11 @@ func isProtoField(sf reflect.StructField, cfg InstCfg) bool {
 	if c := strings.IndexByte(tag, ','); c >= 0 {
 		opt = tag[c+1:]
 	}
-	if sf.Type.Kind() != reflect.Slice || sf.Type.Elem().Kind() == reflect.Uint8 || isScalarKind(sf.Type.Elem()) {
+	ft := sf.Type
+	for ft.Kind() == reflect.Ptr {
+		ft = ft.Elem() // a pointer to a slice uses the slice's codec
+	}
+	if ft.Kind() != reflect.Slice || ft.Elem().Kind() == reflect.Uint8 || isScalarKind(ft.Elem()) {
 		return false
 	}
 	return opt == "proto" || cfg.ProtoArrays
@@ -129,7 +136,7 @@ func mergeValue(dst, src reflect.Value, cfg InstCfg, proto bool, depth int) {
 		if dst.IsNil() {
 			dst.Set(reflect.New(t.Elem()))
 		}
-		mergeValue(dst.Elem(), src.Elem(), cfg, false, depth+1)
+		mergeValue(dst.Elem(), src.Elem(), cfg, proto, depth+1)
 	case reflect.Slice:
 		if t.Elem().Kind() == reflect.Uint8 {
 			dst.Set(Clone(src))
